@@ -207,6 +207,12 @@ def run(out, tier, model_ok=True):
     (ka, a), (kb, b) = rng.choice(objs), rng.choice(objs)
     if rng.random() < 0.4:
       kb, b = ka, construct_real(dict(ka))[1]
+    mutated = None
+    if rng.random() < 0.3:
+      # equality is about the values the fields hold now: re-assign a field after construction
+      b = construct_real(dict(kb))[1]
+      mutated = rng.choice([('n_test', 28), ('n_designs', 4), ('iroas', 2.5), ('budget_range', (1.0, 9.0)), ('sig_level', 0.85)])
+      setattr(b, mutated[0], mutated[1])
     fieldwise = all(getattr(a, f) == getattr(b, f) for f in FIELDS)
     try:
       got = (a == b)
@@ -214,8 +220,11 @@ def run(out, tier, model_ok=True):
       got = 'err ' + type(e).__name__
     if got != fieldwise:
       out.oracle_violation({'call': 'TBRMMDesignParameters.__eq__', 'symptom': 'eq'},
-                           {'a': {k: repr(v) for k, v in ka.items()}, 'b': {k: repr(v) for k, v in kb.items()}},
-                           f'== gives {got}, field-wise comparison gives {fieldwise}')
+                           {'a': {k: repr(v) for k, v in ka.items()}, 'b': {k: repr(v) for k, v in kb.items()}, 'reassigned': repr(mutated)},
+                           f'== gives {got}, field-wise comparison gives {fieldwise}' + (f' (after re-assigning {mutated})' if mutated else ''))
+    if mutated is not None:
+      out.count(None)
+      continue
     eq_lines.append('eq ' + wire(ka)[4:] + ' | ' + wire(kb)[4:])
     eq_want.append('true' if got is True else 'false')
     out.count(None)
